@@ -41,3 +41,13 @@ package ammo
 //@ ensures [sink-closed-on-every-exit] closed(old(p.Sink))
 //@ ensures [outcome-of-the-scan] imp(result_of(p.fs.Open, 1) == nil, result == result_of(p.start, 0))
 //@ at call p.start assert [same-context] arg(a0) == ctx0
+
+//@ func (a *Ammo) ID
+//@ props C20 C10
+//@ modifies nothing
+//@ ensures result == a.id
+
+//@ func (a *Ammo) IsValid
+//@ props C20 C13
+//@ modifies nothing
+//@ ensures result == !a.isInvalid
